@@ -82,13 +82,11 @@ class Reader:
 
         if meta_file == sglx_file:
             # if a meta-data file is provided, try to get the binary file
-            self.file_bin = (
-                sglx_file.with_suffix(".cbin")
-                if sglx_file.with_suffix(".cbin").exists()
-                else None
-            )
-            if sglx_file.with_suffix(".bin").exists():
-                self.file_bin = sglx_file.with_suffix(".bin")
+            cbin_file = _get_companion_file(sglx_file, ".cbin")
+            bin_file = _get_companion_file(sglx_file, ".bin")
+            self.file_bin = cbin_file if cbin_file.exists() else None
+            if bin_file.exists():
+                self.file_bin = bin_file
         else:
             self.file_bin = sglx_file
         self.nbytes = self.file_bin.stat().st_size if self.file_bin else None
